@@ -630,6 +630,9 @@ def check_target(ctx, T):
     for u in sorted(g2):
         if u not in color:
             dfs(u, [u])
+    for n, i in sorted(info.items()):
+        if n not in limited and any(r == n for row in i["rows"] for (r, _) in row["inv"]):
+            cyc.append([n, n])          # a rule invoking itself by name (the `@` of precedence! is not an invocation)
     # direct self recursion through `@` is the precedence climber itself (bounded by input), not nesting
     ctx.check(not cyc, "K11-depth-limiter", gfn, f"{tag}:every-cycle-limited",
               f"rule graph minus the depth-limited rules {sorted(limited)} is acyclic: every recursive path calls the limiter",
